@@ -35,10 +35,29 @@ def _case(draw, tier):
     nmax = 3 if tier == "quick" else 4
     g = draw(gen.int_train_lists(2, nmax, related=draw(st.booleans()),
                                  max_spikes=6 if tier == "quick" else 12))
+    if draw(st.integers(0, 11)) == 0:
+        # one long regular train (65..300 spikes) beside the drawn ones
+        k = draw(st.sampled_from([65, 66, 100, 129, 130, 257, 300]))
+        per = draw(st.sampled_from([1, 2]))
+        n_ = max(g["n"], per * k + draw(st.integers(0, 9)))
+        a = draw(st.integers(0, n_ - per * (k - 1)))
+        g = dict(g, n=n_, trains=[[a + per * j for j in range(k)]] + list(g["trains"])[:nmax - 1])
     q, k0, n = g["q"], g["k0"], g["n"]
     trains = []
     for tr in g["trains"]:
         sp = list(tr)
+        if len(sp) >= 33 and draw(st.booleans()):
+            # a long train with ONE local defect - a repeated spike or two neighbours
+            # swapped - preferably across a power-of-two index (blocked "is it sorted?"
+            # scans compare inside blocks only)
+            js = [j for j in (31, 32, 63, 64, 127, 128, 255, 256) if j + 1 < len(sp)]
+            j = draw(st.one_of(st.sampled_from(js), st.integers(0, len(sp) - 2)))
+            if draw(st.booleans()):
+                sp = sp[:j + 1] + [sp[j]] + sp[j + 1:]
+            else:
+                sp[j], sp[j + 1] = sp[j + 1], sp[j]
+            trains.append(dict(spikes=sp, e0=0, e1=n))
+            continue
         # duplicates
         if sp and draw(st.sampled_from([True, True, False])):
             sp += draw(st.lists(st.sampled_from(sp), min_size=1, max_size=3))
